@@ -1171,7 +1171,7 @@ class Sequences(Family):
         def create():
             u = rng.random()
             k = rng.randrange(len(Rs))
-            if u < 0.22 or not vs:
+            if u < 0.22 or (not vs and u < 0.60):
                 w = rng.random() < 0.6
                 prog.append({"op": "tovec", "k": k, "w": w})
                 vs.append((Rs[k] * (sum(s) + (1 if w else 0)), w, Rs[k]))
